@@ -25,7 +25,8 @@ META = {
             "sample, marshals) and exactly one publish attempt iff it has data and marshals; an attempt is `published` iff the MQ "
             "channel had room at that step; every published payload is the solo result of a received datagram; at quiescence with "
             "no drop the published messages are exactly the solo results of the yielding datagrams, one each. Worker and read loops "
-            "are re-extracted from vflow/*.go on every run and must be Canonical (decide). The real pipeline is run over loopback "
+            "are re-extracted from vflow/*.go on every run and must be Canonical (decide; after the read loop only the close of the "
+            "reader's own UDP channel). The real pipeline is run over loopback "
             "UDP; counters and the published multiset must match the solo decodes and the model's run.",
     "ref": "DESIGN.md §6 C13",
     "note": "Trusted: as C12. DecodedCount for sFlow follows the code (incremented after a successful marshal). The thorough-tier "
